@@ -306,23 +306,36 @@ def _floats(tok):
 
 def tolerant_equal(impl, rep, case):
     """what the correspondence accepts besides identical strings:
-    * a rejection the harness cannot attribute to a named guard (`err:other:...`: another exception class or message)
-      against any rejection of the model — which guard / which exception class rejects an input outside the property's
-      quantifier is incidental; accepting it, or rejecting an input the model accepts, is not;
+    * rejected vs accepted only: any rejection of the implementation against any rejection of the model. Which guard
+      speaks first on a doubly invalid call, which exception class or message rejects an input outside the property's
+      quantifier, is not fixed by the property (the harness attributes kernel codes to guards by the source text next
+      to the `return`, which a merged guard changes); accepting what the model rejects, or rejecting what it accepts,
+      is a disagreement;
     * weights that differ by the rounding of a sum of `count` equal terms taken in another order / as a product:
-      4 + (number of cells or points of the case) ulp; every integer and the layout must be identical."""
-    if impl.startswith("err:other") and rep.startswith("err:"):
+      4 + (number of cells or points of the case) ulp;
+    * the corner of the weight grid (tokens xllcorner, yllcorner of an intersect reply) within 8 ulp of the coordinate
+      magnitude |ll| + (n + 1) * csz of the parent grid — the budget of the oracle: `min(centres) - csz/2` and
+      `ll + start * csz` round differently in the last bits;
+    every integer (cells, rows/cols start/end, shape) and the layout must be identical."""
+    if impl.startswith("err") and rep.startswith("err"):
         return True
     ti, tm = impl.split(" "), rep.split(" ")
     if len(ti) != len(tm) or impl.startswith("err") or rep.startswith("err"):
         return False
     n = max(len(case.get(k) or []) for k in ("area", "filled_cells", "points"))
-    for a, b in zip(ti, tm):
+    co = case.get("coarse")
+    for pos, (a, b) in enumerate(zip(ti, tm)):
         if a == b:
             continue
         fa, fb = _floats(a), _floats(b)
         if fa is None or fb is None or len(fa) != len(fb) or a.count(";") != b.count(";"):
             return False
+        if len(ti) == 12 and pos in (7, 8) and co is not None and len(fa) == 1:
+            lo, m = (co["xll"], co["ncols"]) if pos == 7 else (co["yll"], co["nrows"])
+            budget = 8 * (abs(lo) + abs(co["csz"]) * (m + 1)) * 2.0 ** -52
+            if not abs(fa[0] - fb[0]) <= budget:
+                return False
+            continue
         if any(C.ulp_diff(x, y) > 4 + n for x, y in zip(fa, fb)):
             return False
     return True
